@@ -61,6 +61,7 @@ type c18Cfg struct {
 	Raw            map[string]string // flag name -> value text exactly as the operator spelt it (spelling sweep); the fields above hold what it means
 	RawDomains     []string          // --cookie-domain values as spelt (nil: Domains)
 	Spelling       string
+	Hosts          []c18Host // extra sweeps: the request hosts to use (nil: c18Hosts)
 
 	Prefix string // proxy prefix (under the cookie path, so that a browser would return the cookies to it)
 	Flags  []string
@@ -284,8 +285,12 @@ func (c *c18Cfg) build(w *vfWorld, htpasswd string, withP2 bool) error {
 type c18Host struct {
 	Host  string // Host header
 	XFH   string // X-Forwarded-Host ("" = none)
+	XFP   string // X-Forwarded-Proto ("" = none): the attributes never depend on the request's scheme, forwarded or not
 	Shape string
 }
+
+// c18XFPs: forwarded-scheme values a fronting proxy (or, with reverse-proxy mode off, anybody) may send.
+var c18XFPs = []string{"", "https", "http", "HTTP", "http, https", "gopher-ish garbage"}
 
 // c18EffectiveHost: Host, or X-Forwarded-Host when the instance runs in reverse-proxy mode.
 func c18EffectiveHost(cfg *c18Cfg, h c18Host) string {
@@ -719,6 +724,10 @@ func (cl *c18Client) do(p *vfProxy, step string, req *vfReq) *vfResp {
 	req.Host = cl.h.Host
 	if cl.h.XFH != "" {
 		req.H("X-Forwarded-Host", cl.h.XFH)
+	}
+	if cl.h.XFP != "" {
+		req.H("X-Forwarded-Proto", cl.h.XFP)
+		cl.run.Count("requests_with_x_forwarded_proto", 1)
 	}
 	hdr, presented := cl.cookieHeader()
 	if hdr != "" {
@@ -1183,11 +1192,46 @@ func c18SpellingCfgs(run *vfRun, w *vfWorld, t *testing.T) []*c18Cfg {
 			continue
 		}
 		run.Count("spelling_accepted", 1)
+		cfg.Hosts = []c18Host{{Host: "a.example.com:8443", Shape: "sub+port/spelling"}, {Host: "b.a.example.com", Shape: "deep/spelling"}, {Host: "other.test", Shape: "unrelated/spelling"}}
 		accepted = append(accepted, sp.Label)
 		out = append(out, cfg)
 	}
 	run.Extra("spellings_refused_at_startup", rejected)
 	run.Extra("spellings_accepted", accepted)
+	return out
+}
+
+// ---------------------------------------------------------------------------------------------------------
+// domain-list sweep: lists of UNRELATED (non-nested) domains whose label counts and lengths disagree, in both orders,
+// x request hosts matching one of them or none. Reference unchanged: longest matching, else the SHORTEST configured one
+// (docs: "The longest domain matching the request's host will be used (or the shortest cookie domain if there is no match)").
+
+func c18DomainListCfgs(run *vfRun, w *vfWorld, t *testing.T) []*c18Cfg {
+	lists := [][]string{
+		{"example.co.uk", "corp-intranet.com"}, // 13 bytes / 3 labels vs 17 bytes / 2 labels
+		{"corp-intranet.com", "example.co.uk"},
+		{"a.b.c.example.org", "verylongcompanyname.com"}, // 17 bytes / 5 labels vs 23 bytes / 2 labels
+		{"verylongcompanyname.com", "a.b.c.example.org"},
+		{"corp-intranet.com", "x.io", "example.co.uk"},
+		{"intranet.corp.example.co.uk", "extraordinarily-long-company-name.com", "example.co.uk"}, // nested pair + a longer flat one
+	}
+	var out []*c18Cfg
+	for i, l := range lists {
+		cfg := &c18Cfg{ID: 300000 + i, Secure: true, HTTPOnly: true, SameSite: []string{"lax", "strict", ""}[i%3], Path: "/", DomainSet: "unrelated-domains", Domains: l,
+			Name: "_oauth2_proxy", NameClass: "short", Store: c18Stores[i%2], CSRFPerRequest: i%4 >= 2, ReverseProxy: i%3 == 0, CSRFExpire: 15 * time.Minute, Expire: 168 * time.Hour, Prefix: "/oauth2"}
+		if err := cfg.build(w, "", false); err != nil {
+			t.Fatalf("C18 rig: domain list %v: %v", l, err)
+		}
+		for hi, h := range []string{"10.1.2.3:8443", "other.test", "localhost", "app." + l[0], "www." + l[1] + ":8443", l[len(l)-1]} {
+			host := c18Host{Host: h, Shape: fmt.Sprintf("unrelated-domain-list/host-%d", hi)}
+			if cfg.ReverseProxy && hi%2 == 0 {
+				host = c18Host{Host: "internal.lan:4180", XFH: h, Shape: host.Shape + "/xfh"}
+			}
+			cfg.Hosts = append(cfg.Hosts, host)
+		}
+		run.Count("domain_list_configurations", 1)
+		out = append(out, cfg)
+	}
 	return out
 }
 
@@ -1381,7 +1425,7 @@ func TestVerif_C18(t *testing.T) {
 	run.SetRule("every raw Set-Cookie line of every response of the scenario library (unauthenticated visit, sign-in page, start, failing callbacks {provider error, bogus code, foreign state, CSRF cookie tampered / re-stamped / truncated / garbage / emptied / missing, undecodable state, no code, POST} for anonymous and signed-in browsers, callback success, split session, htpasswd form login, " +
 		"concurrent logins / per-request CSRF, refresh re-issue, tampered-cookie clearing, authorisation-failure clearing on a second instance, sign-out) under cookie-option configurations " +
 		"(covering array in quick: all triples of {secure, httponly, samesite, path, domain set, name length, store} and all pairs with {csrf-per-request, reverse-proxy, csrf-expire, expire, skip-provider-button, a cookie domain listed more than once}; full product of {secure, httponly, samesite, path, domain set, name length, store} in thorough) x request hosts {exact, sub, deep, deeper, unrelated, look-alike, IP} x {no port, port} x {Host, X-Forwarded-Host in reverse-proxy mode, X-Forwarded-Host with reverse-proxy off}. " +
-		"plus --redirect-url {derived, explicit same / sibling / unrelated host, relative} as a pairwise factor, a spelling sweep (capitalised / padded samesite, True/1/0 booleans, cookie-path without leading slash, cookie-domain with leading dot / upper case: refused at start-up or honoured) " +
+		"x X-Forwarded-Proto {absent, https, http, HTTP, list, garbage} in reverse-proxy mode and off, plus lists of unrelated domains with disagreeing label counts / lengths in both orders, --redirect-url {derived, explicit same / sibling / unrelated host, relative} as a pairwise factor, a spelling sweep (capitalised / padded samesite, True/1/0 booleans, cookie-path without leading slash, cookie-domain with leading dot / upper case: refused at start-up or honoured) " +
 		"and a split-threshold boundary sweep (SaveSession with every token length in [first split length-160, +8] under configurations with long Domain/Path attributes and long names). " +
 		"cell = (cookie kind, deletion?, attribute vector, domain-rule case, host shape). Domain reading in force: port ignored (fix 09579bc / F8)")
 	run.Assume("the client returns every cookie it was given regardless of Secure/Domain/Path matching (the proxy never sees those attributes on a request); application and proxy paths are placed under --cookie-path",
@@ -1465,9 +1509,10 @@ func TestVerif_C18(t *testing.T) {
 		}
 		var fl []*c18Flow
 		if lo == 0 {
-			// the spelling sweep rides along with the first batch (it needs the same wait for the refresh scenarios)
-			for _, cfg := range c18SpellingCfgs(run, w, t) {
-				for hi, h := range []c18Host{{Host: "a.example.com:8443", Shape: "sub+port/spelling"}, {Host: "b.a.example.com", Shape: "deep/spelling"}, {Host: "other.test", Shape: "unrelated/spelling"}} {
+			// the spelling and domain-list sweeps ride along with the first batch (they need the same wait for the refresh scenarios)
+			extras := append(c18SpellingCfgs(run, w, t), c18DomainListCfgs(run, w, t)...)
+			for _, cfg := range extras {
+				for hi, h := range cfg.Hosts {
 					fl = append(fl, &c18Flow{run: run, w: w, cfg: cfg, h: h, large: hi == 0})
 				}
 			}
@@ -1476,6 +1521,17 @@ func TestVerif_C18(t *testing.T) {
 			for hi, h := range c18Hosts(cfg, run.Env.Thorough()) {
 				// the (expensive) split-session client runs for every second host of a configuration, alternating over configurations
 				fl = append(fl, &c18Flow{run: run, w: w, cfg: cfg, h: h, large: (hi+cfg.ID)%2 == 0})
+			}
+		}
+		for i, f := range fl {
+			// request dimension X-Forwarded-Proto, in reverse-proxy mode and off: rotates over hosts and configurations
+			f.h.XFP = c18XFPs[(i+f.cfg.ID)%len(c18XFPs)]
+			if f.h.XFP != "" {
+				mode := "rp-off"
+				if f.cfg.ReverseProxy {
+					mode = "rp-on"
+				}
+				run.Count("flows_xfp_"+mode+"_"+map[string]string{"https": "https", "http": "http", "HTTP": "http-uppercase", "http, https": "list", "gopher-ish garbage": "garbage"}[f.h.XFP], 1)
 			}
 		}
 		flows += len(fl)
@@ -1493,7 +1549,7 @@ func TestVerif_C18(t *testing.T) {
 	run.Extra("flows", flows)
 	run.Extra("domain_reading", "port ignored (longest configured domain that is a suffix of the request host without its port)")
 	// the monitor must have seen every kind of cookie it guards
-	need := []string{"spelling_variants", "spelling_accepted", "boundary_saves", "scenario_failing_callback_stale_csrf", "scenario_failing_callback_missing_csrf", "scenario_failing_callback_bad_state", "responses_status_403", "responses_status_500", "lines_csrf", "lines_csrf_deletion", "lines_session", "lines_session_deletion", "lines_split", "lines_split_deletion", "lines_ticket", "lines_ticket_deletion",
+	need := []string{"domain_list_configurations", "requests_with_x_forwarded_proto", "flows_xfp_rp-on_http", "flows_xfp_rp-on_http-uppercase", "flows_xfp_rp-off_http", "spelling_variants", "spelling_accepted", "boundary_saves", "scenario_failing_callback_stale_csrf", "scenario_failing_callback_missing_csrf", "scenario_failing_callback_bad_state", "responses_status_403", "responses_status_500", "lines_csrf", "lines_csrf_deletion", "lines_session", "lines_session_deletion", "lines_split", "lines_split_deletion", "lines_ticket", "lines_ticket_deletion",
 		"scenario_refresh_reissue", "scenario_refresh_reissue_large", "scenario_load_error_clearing", "scenario_authorisation_failure_clearing", "scenario_sign_out", "scenario_sign_out_large",
 		"scenario_htpasswd_login", "scenario_relogin_expires_stale_parts", "domain_rule_longest", "domain_rule_fallback", "domain_rule_none", "deletions_matching_held_cookie"}
 	for _, k := range need {
